@@ -303,5 +303,8 @@ def run(chk, repo):
            "a _PAR_Y copy can overwrite the mapping of its chrX gene: FusionCatcher fusions of PAR genes are emitted on the N-masked chrY copy (no junction peptides)",
            key=cm.qual + '::par-y-first-wins', fn=cm.qual)
     from rules.shared import kwname
+    from rules.C06 import rule_identity
+    chk.clauses.append('C15.l (shared with C06.g) the identity (hash / eq) of a variant record covers the fusion acceptor attributes: set() de-duplication cannot merge two fusions of one donor breakpoint')
+    rule_identity(chk, repo, 'C15.l')
     chk.clauses.append('C15.kw (shared R-THREAD) parameters handed on as keyword arguments keep their name: no `a=b` between two parameters of one function')
     kwname(chk, repo, 'C15.kw', ['parser.STARFusionParser', 'parser.FusionCatcherParser', 'parser.ArribaParser', 'cli.parse_star_fusion', 'cli.parse_fusion_catcher', 'cli.parse_arriba'], floor=0)
